@@ -11,10 +11,23 @@ driven in-process on generated swarms, against `Artap.Swarm.*` (Lean model; Prop
 * position: every coordinate and velocity component after `update_position` (exact on the bound);
 * leaders: after every `update_global_best` (synthetic generations and inside real `run()`s) the leader archive
   has at most N members, mutually non-dominated, drawn from the non-dominated set of (old leaders + swarm),
-  of the size and with the feature values the model's `generation` gives.
+  of the size and with the feature values the model's `generation` gives;
+* run loops, step by step (stream_swarm_runs): real OMOPSO and SMPSO runs are recorded phase by phase (the swarm when
+  selector.select / update_velocity / update_position / turbulence / evaluate / update_particle_best /
+  update_global_best are entered and left, the leader returned by select_leader, the uniform draws, khi and the inertia
+  weights of every particle, every objective call with its outcome and the re-rolled vectors, the leader archive, the
+  recorded generations) and replayed through the composed run model of Model/SwarmRun.lean: every iteration through
+  `swarmStep` from the recorded parents and leader archive (velocities, positions, what the evaluator receives,
+  evaluated costs, personal bests, order / crowding distances / front numbers after update_global_best, leader cost
+  sets, evaluation counts), every run through `swarmRun` from its initial vectors (tags, recorded designs, counts,
+  leaders of every generation, OMOPSO's eps-archive).  Exact rationals; positions exactly on a bound the model puts
+  them on, within 1e-9 elsewhere.
 """
+import contextlib
+import fractions
 import math
 import os
+import random
 
 from .common import phi, rat, unrat, vec, mat, close
 from .c01 import spec_pareto
@@ -494,6 +507,772 @@ def run_leaders(ctx, algs):
     return False
 
 
+# --------------------------------------------------------------------------- composed run model (Model/SwarmRun.lean)
+#
+# Real OMOPSO / SMPSO runs are recorded phase by phase: the public methods of the run loop (selector.select,
+# update_velocity, update_position, turbulence, evaluate, update_particle_best, update_global_best) are wrapped on the
+# algorithm object and the swarm is snapshotted when each one is entered and left; select_leader, khi, inertia_weight
+# and the module-level `uniform` of artap.algorithm_swarm are wrapped to capture the leader and the draws of every
+# particle; the objective logs every call.  Every iteration is then replayed from the recorded parents and leader
+# archive through `swarmStep`, and every run from its initial vectors through `swarmRun` (exact rationals).
+
+Fr = fractions.Fraction
+RUN_ALGS = ["OMOPSO", "SMPSO"]
+PHASES = ["update_velocity", "update_position", "turbulence", "evaluate", "update_particle_best", "update_global_best"]
+
+
+def run_problem(cfg):
+    from artap.problem import Problem
+    bounds, nobj, kind, fail_p = cfg["bounds"], cfg["nobj"], cfg["kind"], cfg["fail_p"]
+    frng = random.Random(cfg["seed"] * 7919 + 13)
+
+    class SP(Problem):
+        def set(self, **kw):
+            self.name = "c18s"
+            self.parameters = [{"name": "x%d" % i, "bounds": [lb, ub]} for i, (lb, ub) in enumerate(bounds)]
+            crit = ["minimize", "maximize", "minimize"]
+            self.costs = [{"name": "f%d" % j, "criteria": "minimize" if nobj == 1 else crit[j % 3]} for j in range(nobj)]
+            self.calls = []
+
+        def evaluate_inequality_constraints(self, x):
+            if kind == "constrained":
+                lb, ub = bounds[0]
+                return [x[0] - (lb + 0.6 * (ub - lb))]
+            return []
+
+        def evaluate(self, ind):
+            v = tuple(float(t) for t in ind.vector)
+            if fail_p and frng.random() < fail_p:
+                k = "t" if frng.random() < 0.5 else "r"
+                self.calls.append((ind, v, k, None))
+                raise (TimeoutError if k == "t" else RuntimeError)("injected")
+            c = []
+            for j in range(nobj):
+                s = 0.0
+                for t, (lb, ub) in zip(v, bounds):
+                    w = (ub - lb) or 1.0
+                    s += ((t - lb) / w - (0.15 + 0.35 * j)) ** 2
+                c.append(s if j != 1 else -s + 0.25 * sum((t - lb) / ((ub - lb) or 1.0) for t, (lb, ub) in zip(v, bounds)))
+            self.calls.append((ind, v, "o", list(c)))
+            return c
+
+    p = SP()
+    wd, p.working_dir = p.working_dir, ""
+    try:
+        os.rmdir(wd)
+    except OSError:
+        pass
+    return p
+
+
+def snap(q):
+    f = q.features
+    vel = f.get("velocity")
+    return {"obj": q, "x": [float(t) for t in q.vector], "v": [float(t) for t in vel] if isinstance(vel, list) else [],
+            "cs": list(q.costs_signed), "bv": [float(t) for t in f["best_vector"]] if f.get("best_vector") is not None else None,
+            "bc": list(f["best_cost"]) if f.get("best_cost") is not None else None,
+            "cd": f.get("crowding_distance", 0), "fn": f.get("front_number", 0), "feas": f.get("feasible", 0.0)}
+
+
+def record_swarm(cfg):
+    """Run the real algorithm with every phase of the loop observed."""
+    import numpy as np
+    import artap.algorithm_swarm as sw
+    random.seed(cfg["seed"])
+    np.random.seed(cfg["seed"] % (2 ** 32))
+    p = run_problem(cfg)
+    a = getattr(sw, cfg["algo"])(p)
+    a.options["max_population_size"] = cfg["N"]
+    a.options["max_population_number"] = cfg["G"]
+    a.options["max_processes"] = 1
+    a.options["prob_mutation"] = cfg["pm"]
+    if getattr(a, "mutator", None) is not None:
+        a.mutator.probability = cfg["pm"]
+    init_rec = {"ev": {}, "order": [], "draws": [], "init": True}
+    recs = []
+    st = {"cur": init_rec, "in_vel": False, "in_w": False, "bucket": None}
+
+    def wrap_phase(name):
+        orig = getattr(a, name)
+
+        def w(pop, *args, **kw):
+            rec = st["cur"]
+            rec["order"].append(name)
+            rec["ev"].setdefault(name + ":in", [snap(q) for q in pop])
+            if name == "evaluate":
+                rec.setdefault("log_start", len(p.calls))
+            if name == "update_velocity":
+                st["in_vel"] = True
+            try:
+                r = orig(pop, *args, **kw)
+            finally:
+                if name == "update_velocity":
+                    st["in_vel"] = False
+                    st["bucket"] = None
+            rec["ev"][name + ":out"] = [snap(q) for q in pop]
+            if name == "evaluate":
+                rec["log_end"] = len(p.calls)
+            if name == "update_global_best":
+                rec["leaders_after"] = [snap(l) for l in a.leaders._contents]
+            return r
+        setattr(a, name, w)
+
+    for name in PHASES:
+        wrap_phase(name)
+    orig_select = a.selector.select
+
+    def select(individuals):
+        rec = {"ev": {}, "order": [], "draws": [], "parents": [snap(q) for q in individuals],
+               "leaders": [snap(l) for l in a.leaders._contents]}
+        recs.append(rec)
+        st["cur"] = rec
+        return orig_select(individuals)
+    a.selector.select = select
+    orig_leader, orig_khi, orig_w = a.select_leader, a.khi, a.inertia_weight
+
+    def select_leader():
+        g = orig_leader()
+        if st["in_vel"]:
+            st["bucket"] = {"leader": snap(g), "u": [], "w": [], "khi": []}
+            st["cur"]["draws"].append(st["bucket"])
+        return g
+
+    def khi(c1, c2):
+        v = orig_khi(c1, c2)
+        if st["bucket"] is not None:
+            st["bucket"]["khi"].append((c1, c2, v))
+        return v
+
+    def inertia_weight():
+        st["in_w"] = True
+        try:
+            v = orig_w()
+        finally:
+            st["in_w"] = False
+        if st["bucket"] is not None:
+            st["bucket"]["w"].append(v)
+        return v
+    a.select_leader, a.khi, a.inertia_weight = select_leader, khi, inertia_weight
+    real_uniform = sw.uniform
+
+    def uniform(lo, hi):
+        v = real_uniform(lo, hi)
+        if st["in_vel"] and st["bucket"] is not None and not st["in_w"]:
+            st["bucket"]["u"].append((lo, hi, v))
+        return v
+    sw.uniform = uniform
+    try:
+        with open(os.devnull, "w") as dn, contextlib.redirect_stdout(dn), contextlib.redirect_stderr(dn):
+            a.run()
+    finally:
+        sw.uniform = real_uniform
+    return {"cfg": cfg, "p": p, "a": a, "init": init_rec, "recs": recs}
+
+
+# ---- encoding
+
+def rv(v):
+    return ",".join(rat(float(t)) for t in v)
+
+
+def crowd_s(c):
+    return "inf" if c == math.inf else rat(float(c))
+
+
+def feas_s(f):
+    return ("y" if f else "n") if isinstance(f, bool) else "d"
+
+
+def particle_s(s):
+    cs, bc = s["cs"], s["bc"]
+    fn = s["fn"] if isinstance(s["fn"], int) and s["fn"] >= 0 else 0
+    return ":".join([rv(s["x"]), rv(s["v"]), rv(cs[:-1]), str(int(cs[-1])) if cs else "N", feas_s(s["feas"]),
+                     rv(s["bv"] or []), rv(bc[:-1]) if bc else "", str(int(bc[-1])) if bc else "N", crowd_s(s["cd"]), str(fn)])
+
+
+def s_calls_by_object(p):
+    by = {}
+    for ind, v, k, c in p.calls:
+        by.setdefault(id(ind), []).append((v, k))
+    return by
+
+
+def s_spec_of(by, obj):
+    cs = by.get(id(obj), [])
+    vecs = [v for v, _ in cs] or [tuple(float(t) for t in obj.vector)]
+    return "7:%s:%s" % (",".join(k for _, k in cs), ";".join(rv(v) for v in vecs))
+
+
+def s_table(p):
+    """vector -> (costs as the run stored them, constraint values) for every vector the objective was called with"""
+    tab = {}
+    for ind, v, k, c in p.calls:
+        if k == "o":
+            tab[v] = [float(cs) * float(s) for cs, s in zip(ind.costs_signed[:-1], p.signs)]
+        else:
+            tab.setdefault(v, None)
+    ents = []
+    for v, c in tab.items():
+        g = [float(t) for t in p.evaluate_inequality_constraints(list(v))]
+        ents.append("%s:%s:%s" % (rv(v), rv(c) if c is not None else "", rv(g)))
+    return "#".join(ents)
+
+
+def box_s(cfg):
+    return ";".join("%s,%s,%s" % (rat(lb), rat(ub), rat(1e-12 + 1e-15 * max(abs(lb), abs(ub)))) for lb, ub in cfg["bounds"])
+
+
+def eps_of(archive):
+    e = getattr(getattr(archive, "_dominance", None), "epsilons", None)
+    if e is None:
+        return []
+    return [float(t) for t in (e if hasattr(e, "__getitem__") else [e])]
+
+
+def clampf(v, ub, lb):
+    d = (ub - lb) / 2.0
+    return max(min(v, d), -d)
+
+
+def draws_of(rr, rec):
+    """Per particle: leader vector, r1, r2, c1, c2, khi, inertia weights.  The two (0,1) draws and the two c draws are
+    assigned to (r1, r2) / (c1, c2) in the order that reproduces the observed velocity (values, not call order)."""
+    a, cfg = rr["a"], rr["cfg"]
+    before = rec["ev"].get("update_velocity:in") or []
+    after = rec["ev"].get("update_velocity:out") or []
+    out = []
+    for k, b in enumerate(rec["draws"]):
+        us = b["u"]
+        rs = [round(v, 1) for lo, hi, v in us if (lo, hi) == (a.r1_min, a.r1_max)]
+        cs = [round(v, 1) for lo, hi, v in us if (lo, hi) == (a.c1_min, a.c1_max)]
+        if len(rs) != 2 or len(cs) != 2:
+            vals = [round(v, 1) for _, _, v in us] + [0.0] * 4
+            rs, cs = vals[0:2], vals[2:4]
+        if b["khi"]:
+            kh = b["khi"][0][2]
+        else:
+            rho = cs[0] + cs[1]
+            kh = 1.0 if rho <= 4 else 2.0 / (2.0 - rho - (rho ** 2.0 - 4.0 * rho) ** 0.5)
+        ws = list(b["w"])
+        g = b["leader"]["x"]
+        best = None
+        if k < len(before) and k < len(after):
+            x, pb, obs = before[k]["x"], before[k]["bv"] or [], after[k]["v"]
+            ws = ws if len(ws) >= len(x) else ws + [a.min_weight] * (len(x) - len(ws))
+            for r1, r2 in ((rs[0], rs[1]), (rs[1], rs[0])):
+                for c1, c2 in ((cs[0], cs[1]), (cs[1], cs[0])):
+                    try:
+                        pred = [clampf(kh * (ws[i] * x[i] + c1 * r1 * (pb[i] - x[i]) + c2 * r2 * (g[i] - x[i])),
+                                       cfg["bounds"][i][1], cfg["bounds"][i][0]) for i in range(len(x))]
+                    except IndexError:
+                        continue
+                    if len(pred) == len(obs) and all(vclose(u, w_, x[i], pb[i], g[i], cfg["bounds"][i]) for i, (u, w_) in enumerate(zip(pred, obs))):
+                        best = (r1, r2, c1, c2)
+                        break
+                if best:
+                    break
+        r1, r2, c1, c2 = best or (rs[0], rs[1], cs[0], cs[1])
+        lc = b["leader"]["cs"]
+        out.append("%s:%s:%s:%s" % (rv(lc[:-1]), str(int(lc[-1])) if lc else "0", rv([r1, r2, c1, c2, kh]), rv(ws)))
+    return "#".join(out)
+
+
+def vclose(a, b, x, pb, g, bd):
+    scale = max(abs(x), abs(pb), abs(g), abs(bd[0]), abs(bd[1]), 1e-300)
+    return abs(a - b) <= 1e-9 * scale
+
+
+def state_after(rec, phase):
+    """the swarm as observed when `phase` returned; a phase that was not called leaves the previous state"""
+    order = ["update_velocity", "update_position", "turbulence"]
+    i = order.index(phase)
+    while i >= 0:
+        s = rec["ev"].get(order[i] + ":out")
+        if s is not None:
+            return s
+        i -= 1
+    return rec["ev"].get("update_velocity:in")
+
+
+def mut_draws(rec, nparams):
+    before = state_after(rec, "update_position") or []
+    handed = rec["ev"].get("evaluate:in") or []
+    by = {id(s["obj"]): s for s in handed}
+    out = []
+    for s in before:
+        h = by.get(id(s["obj"]))
+        if h is None or len(h["x"]) != len(s["x"]):
+            out.append(";".join("0,0" for _ in range(nparams)) or "-")
+            continue
+        out.append(";".join("%d,%s" % (1, rat(c)) if c != x0 else "0,0" for x0, c in zip(s["x"], h["x"])) or "-")
+    return "#".join(out)
+
+
+def s_prepare(rr):
+    p = rr["p"]
+    rr["by"] = s_calls_by_object(p)
+    rr["table"] = s_table(p)
+    rr["signs"] = ",".join(str(int(s)) for s in p.signs)
+    rr["eps"] = rv(eps_of(rr["a"].leaders))
+    rr["epsA"] = rv(eps_of(getattr(rr["a"], "archive", None)))
+    rr["box"] = box_s(rr["cfg"])
+
+
+def offspring_of(rec):
+    return rec["ev"].get("update_velocity:in") or rec["ev"].get("evaluate:in") or []
+
+
+def step_request(rr, it):
+    cfg, rec = rr["cfg"], rr["recs"][it]
+    offs = offspring_of(rec)
+    specs = "#".join(s_spec_of(rr["by"], s["obj"]) for s in offs)
+    return "c18.step %s|%d|%d|%s|%s|%s|%s|%s|%s|%s|%s|%s|%s" % (
+        cfg["algo"], cfg["N"], it, rr["eps"], rr["epsA"], rr["box"], rr["signs"], rr["table"], specs,
+        "#".join(particle_s(s) for s in rec["parents"]), "#".join(particle_s(s) for s in rec["leaders"]),
+        draws_of(rr, rec), mut_draws(rec, len(cfg["bounds"])))
+
+
+def run_request(rr):
+    cfg = rr["cfg"]
+    init_objs = [s["obj"] for s in (rr["init"]["ev"].get("evaluate:in") or [])]
+    specs = [s_spec_of(rr["by"], o) for o in init_objs]
+    init_vecs = [(rr["by"][id(o)][0][0] if id(o) in rr["by"] else tuple(o.vector)) for o in init_objs]
+    steps = []
+    for it, rec in enumerate(rr["recs"]):
+        specs += [s_spec_of(rr["by"], s["obj"]) for s in offspring_of(rec)]
+        steps.append("%s!%s" % (draws_of(rr, rec), mut_draws(rec, len(cfg["bounds"]))))
+    return "c18.run %s|%d|%d|%s|%s|%s|%s|%s|%s|%s|%s" % (
+        cfg["algo"], cfg["N"], cfg["G"], rr["eps"], rr["epsA"], rr["box"], rr["signs"], rr["table"], "#".join(specs),
+        ";".join(rv(v) for v in init_vecs), "@".join(steps))
+
+
+# ---- the clauses of the property evaluated directly on an observed run
+
+def run_clauses(rr):
+    cfg, p = rr["cfg"], rr["p"]
+    N, G, bounds = cfg["N"], cfg["G"], cfg["bounds"]
+    out = []
+    tags = {}
+    for i in p.individuals:
+        tags[i.population_id] = tags.get(i.population_id, 0) + 1
+    if tags != {t: N for t in range(G + 1)}:
+        out.append("generations recorded as {tag: count} = %r instead of tags 0..%d with %d designs each" % (tags, G, N))
+    ok = sum(1 for c in p.calls if c[2] == "o")
+    if ok != N * (G + 1):
+        out.append("%d successful evaluations instead of N*(G+1) = %d" % (ok, N * (G + 1)))
+    for it, rec in enumerate([rr["init"]] + rr["recs"]):
+        g = it  # generation number
+        va = rec["ev"].get("update_velocity:out")
+        for s in va or []:
+            for i, (lb, ub) in enumerate(bounds):
+                if i < len(s["v"]) and not abs(s["v"][i]) <= (ub - lb) / 2.0 * (1 + 1e-12):
+                    out.append("generation %d: velocity %r after update_velocity exceeds half the range of parameter %d [%r, %r]" % (g, s["v"], i, lb, ub))
+                    break
+        if g >= 1:
+            for ind, v, k, c in p.calls[rec.get("log_start", 0):rec.get("log_end", 0)]:
+                first = rr["by"][id(ind)][0][0] == v
+                if first and (len(v) != len(bounds) or any(not (lb <= t <= ub) for t, (lb, ub) in zip(v, bounds))):
+                    out.append("generation %d: the design %r handed to the objective lies outside the box %r" % (g, list(v), bounds))
+                    break
+            ev_out, pb_out = rec["ev"].get("evaluate:out"), rec["ev"].get("update_particle_best:out")
+            ref = {id(s["obj"]): s for s in (pb_out or rec["ev"].get("update_global_best:in") or [])}
+            for s in ev_out or []:
+                t = ref.get(id(s["obj"]))
+                if t is None or not s["cs"] or not s["bc"] or not t["bc"]:
+                    continue
+                dominated = spec_pareto(s["cs"][:-1], s["bc"][:-1], s["cs"][-1], s["bc"][-1]) == 2
+                want = s["bc"] if dominated else s["cs"]
+                if skey(t["bc"]) != skey(want):
+                    out.append("generation %d: particle at %r with signed costs %r and old personal best %r (old best dominates: %s) "
+                               "ends with personal best %r" % (g, s["x"], s["cs"], s["bc"], dominated, t["bc"]))
+                    break
+        la = rec.get("leaders_after")
+        if la is not None:
+            msg = check_leaders_P([s["obj"] for s in la], N)
+            if msg:
+                out.append("generation %d: %s" % (g, msg))
+    for i in p.individuals:
+        if i.population_id == 0 and (len(i.vector) != len(bounds) or any(
+                not (lb - 1e-12 - 1e-15 * abs(lb) <= t <= ub + 1e-12 + 1e-15 * abs(ub)) for t, (lb, ub) in zip(i.vector, bounds))):
+            out.append("initial design %r outside the box %r" % (list(i.vector), bounds))
+            break
+    return out
+
+
+# ---- comparison of the replayed phases with the recorded ones
+
+def fr_list(s):
+    return [Fr(t) for t in s.split(",")] if s.strip() else []
+
+
+def fr_mat(s):
+    return [fr_list(r) for r in s.split(";")] if s.strip() else []
+
+
+def zones_of(x, v, bounds):
+    """per coordinate: where x + v lies relative to the box, decided exactly; `near` = within rounding distance"""
+    z = []
+    for i, (lb, ub) in enumerate(bounds):
+        if i >= len(x) or i >= len(v):
+            z.append("inside")
+            continue
+        s = Fr(x[i]) + Fr(v[i])
+        scale = max(abs(x[i]), abs(v[i]), abs(lb), abs(ub))
+        if any(abs(s - Fr(b)) <= Fr(1e-9) * Fr(scale) and s != Fr(b) for b in (lb, ub)):
+            z.append("near")
+        elif s > Fr(ub):
+            z.append("above")
+        elif s < Fr(lb):
+            z.append("below")
+        else:
+            z.append("inside")
+    return z
+
+
+def pclose(a, b, bd):
+    a, b = float(a), float(b)
+    return close(a, b) or abs(a - b) <= 1e-9 * max(abs(bd[0]), abs(bd[1]))
+
+
+def leader_keys(snaps):
+    return sorted(skey(s["cs"]) for s in snaps)
+
+
+def parse_leaders(t):
+    out = []
+    for e in (t.split("#") if t.strip() else []):
+        sg, m, cr = e.split(":")
+        out.append(([float(Fr(u)) for u in sg.split(",")] if sg.strip() else [], int(m), math.inf if cr == "inf" else float(Fr(cr))))
+    return out
+
+
+def compare_leaders(model, real_snaps):
+    """None = same cost sets; 'near-tie' = they differ only by members whose crowding distances tie within rounding at the cut"""
+    mk = sorted(skey(c + [mk_]) for c, mk_, _ in model)
+    rk = leader_keys(real_snaps)
+    if mk == rk:
+        return None
+    mc = sorted(cr for _, _, cr in model)
+    rc = sorted(float(s["cd"]) for s in real_snaps)
+    if len(mc) == len(rc) and all(close(a, b) for a, b in zip(mc, rc)):
+        return "near-tie"
+    return "leaders hold signed costs %r, the model's leader archive %r" % (
+        sorted(tuple(s["cs"]) for s in real_snaps), sorted(tuple(c + [m]) for c, m, _ in model))
+
+
+def check_step(rr, it, ans):
+    """Compare one replayed iteration with the recorded one.  Returns None, 'near-tie', or (key, what)."""
+    cfg, rec = rr["cfg"], rr["recs"][it]
+    bounds, alg = cfg["bounds"], cfg["algo"]
+    head = "%s %s, iteration it=%d: " % (alg, {k: v for k, v in cfg.items()}, it)
+    uncovered = ans.startswith("uncovered ")
+    if not ans.startswith("ok") and not uncovered:
+        return ("step-" + ans.replace(" ", "-"), head + "the real iteration completed, the composed model (swarmStep) answers %r (raise <phase> = that phase "
+                "raises in the model or the recorded draws / leader do not fit it)" % ans)
+    f = ans.split(" ", 1)[1].split("|")
+    m_vel, m_pos, m_pvel, m_turb = fr_mat(f[0]), fr_mat(f[1]), fr_mat(f[2]), fr_mat(f[3])
+    offs = offspring_of(rec)
+    ids = [id(s["obj"]) for s in offs]
+
+    def by_id(snaps):
+        d = {id(s["obj"]): s for s in (snaps or [])}
+        return [d.get(i) for i in ids]
+    n = len(offs)
+    if not (len(m_vel) == len(m_pos) == len(m_turb) == n) and any(len(s["x"]) > 0 for s in offs):
+        return ("step-size", head + "%d particles were selected, the model has %d" % (n, len(m_vel)))
+    s_in = by_id(rec["ev"].get("update_velocity:in"))
+    s_vel = by_id(state_after(rec, "update_velocity"))
+    s_pos = by_id(state_after(rec, "update_position"))
+    s_hand = by_id(rec["ev"].get("evaluate:in"))
+    s_eval = by_id(rec["ev"].get("evaluate:out"))
+    s_pb = by_id(rec["ev"].get("update_particle_best:out") or rec["ev"].get("update_global_best:in"))
+    if any(s is None for lst in (s_in, s_vel, s_pos, s_hand, s_eval, s_pb) for s in lst):
+        return ("step-phases", head + "the phases of the loop did not all see the selected particles (observed order of calls %r)" % rec["order"])
+    for k in range(n):
+        x0, pb0 = s_in[k]["x"], s_in[k]["bv"] or []
+        g = rec["draws"][k]["leader"]["x"] if k < len(rec["draws"]) else x0
+        # 1. velocity
+        rvv, mv = s_vel[k]["v"], m_vel[k] if k < len(m_vel) else []
+        if len(rvv) != len(mv) or any(not vclose(a, float(b), x0[i], pb0[i] if i < len(pb0) else 0.0, g[i] if i < len(g) else 0.0, bounds[i])
+                                      for i, (a, b) in enumerate(zip(rvv, mv))):
+            return ("step-velocity", head + "particle %d at %r (personal best %r, leader %r) got velocity %r from update_velocity; the model "
+                    "(khi*(w*x + c1*r1*(pbest-x) + c2*r2*(leader-x)) with the recorded draws, clamped to +-(ub-lb)/2) gives %r" % (
+                        k, x0, pb0, g, rvv, [float(t) for t in mv]))
+        for i, (lb, ub) in enumerate(bounds):
+            if i < len(rvv) and not abs(rvv[i]) <= (ub - lb) / 2.0 * (1 + 1e-12):
+                return ("step-velocity-band", head + "particle %d: velocity component %d = %r after update_velocity exceeds half the range (ub-lb)/2 = %r" % (
+                    k, i, rvv[i], (ub - lb) / 2.0))
+        # 2. position
+        zs = zones_of(x0, rvv, bounds)
+        rx, rpv = s_pos[k]["x"], s_pos[k]["v"]
+        mx, mpv = m_pos[k], m_pvel[k]
+        bad = len(rx) != len(mx)
+        for i in range(min(len(rx), len(mx), len(bounds))):
+            lb, ub = bounds[i]
+            z = zs[i]
+            if z == "above":
+                okx, okv = rx[i] == ub, close(rpv[i], float(mpv[i]))
+            elif z == "below":
+                okx, okv = rx[i] == lb, close(rpv[i], float(mpv[i]))
+            elif z == "near":
+                okx, okv = pclose(rx[i], mx[i], bounds[i]), True
+                rr["near"] = rr.get("near", 0) + 1
+            else:
+                okx, okv = pclose(rx[i], mx[i], bounds[i]), rpv[i] == rvv[i]
+            bad = bad or not okx or not okv or not (lb <= rx[i] <= ub)
+        if bad:
+            return ("step-position", head + "particle %d at %r with velocity %r in box %r (x+v: %r) became x=%r v=%r after update_position; the model "
+                    "(Swarm.updatePosition, factor %r) gives x=%r v=%r" % (k, x0, rvv, bounds, zs, rx, rpv, FACTOR[alg],
+                                                                             [float(t) for t in mx], [float(t) for t in mpv]))
+        # 3. turbulence: what the evaluator receives
+        hx, mt = s_hand[k]["x"], m_turb[k]
+        bad = len(hx) != len(mt)
+        for i in range(min(len(hx), len(mt), len(bounds))):
+            lb, ub = bounds[i]
+            hit = hx[i] != rx[i]
+            ok = (Fr(hx[i]) == mt[i]) if hit or zs[i] in ("above", "below") else pclose(hx[i], mt[i], bounds[i])
+            bad = bad or not ok or not (lb <= hx[i] <= ub)
+        if bad:
+            return ("step-turbulence", head + "particle %d: position %r after update_position, %r handed to the evaluator (box %r); the model's turbulence "
+                    "(copied coordinate or clipped value; particle %s mutated) gives %r" % (
+                        k, rx, hx, bounds, "is" if (alg == "OMOPSO" or k % 6 == 0) else "is not", [float(t) for t in mt]))
+    if uncovered:
+        return ("step-uncovered", head + "velocities, positions and turbulence agree with the model within the comparison band, but the model then "
+                "evaluates a position that is further than 1e-9 from every position the run evaluated")
+    # 4. evaluation
+    m_ev = [e.split(":") for e in f[4].split("#")] if f[4].strip() else []
+    for k in range(n):
+        e = s_eval[k]
+        mvx, msg_, mm = fr_list(m_ev[k][0]), fr_list(m_ev[k][1]), m_ev[k][2]
+        nofault = len(rr["by"].get(ids[k], [])) == 1
+        okv = len(e["x"]) == len(mvx) and all((Fr(a) == b) if not nofault else pclose(a, b, bounds[i]) for i, (a, b) in enumerate(zip(e["x"], mvx)))
+        okc = e["cs"] and [Fr(float(t)) for t in e["cs"][:-1]] == msg_ and str(int(e["cs"][-1])) == mm
+        if not okv or not okc:
+            return ("step-evaluate", head + "particle %d left the evaluator as vector %r with signed costs %r; the evaluator model gives vector %r, "
+                    "signed costs %r, marker %s" % (k, e["x"], e["cs"], [float(t) for t in mvx], [float(t) for t in msg_], mm))
+    seg = rr["p"].calls[rec.get("log_start", 0):rec.get("log_end", 0)]
+    real_ok = sum(1 for c in seg if c[2] == "o")
+    if real_ok != int(f[10]) or len(seg) != int(f[11]):
+        return ("step-evals", head + "%d successful / %d objective calls in this iteration, the model makes %s / %s (budget: N = %d per generation)" % (
+            real_ok, len(seg), f[10], f[11], cfg["N"]))
+    # 5. personal best
+    m_pb = [e.split(":") for e in f[5].split("#")] if f[5].strip() else []
+    for k in range(n):
+        t, e = s_pb[k], s_eval[k]
+        mbv, mbc, mbm = fr_list(m_pb[k][0]), fr_list(m_pb[k][1]), m_pb[k][2]
+        ok = t["bc"] and [Fr(float(u)) for u in t["bc"][:-1]] == mbc and str(int(t["bc"][-1])) == mbm and t["bv"] is not None and \
+            len(t["bv"]) == len(mbv) and all(pclose(a, b, bounds[i]) for i, (a, b) in enumerate(zip(t["bv"], mbv)))
+        if not ok:
+            dom = e["bc"] and e["cs"] and spec_pareto(e["cs"][:-1], e["bc"][:-1], e["cs"][-1], e["bc"][-1]) == 2
+            return ("step-pbest", head + "particle %d: new signed costs %r at %r, old personal best %r at %r (old best dominates the new position: %s); after "
+                    "update_particle_best the personal best is %r at %r; the model (replace unless the old best dominates) gives %r at %r" % (
+                        k, e["cs"], e["x"], e["bc"], e["bv"], dom, t["bc"], t["bv"], [float(u) for u in mbc] + [mbm], [float(u) for u in mbv]))
+    # 6. final order, crowding distances, front numbers
+    s_gb = rec["ev"].get("update_global_best:out") or []
+    real_order = [ids.index(id(s["obj"])) if id(s["obj"]) in ids else -1 for s in s_gb]
+    m_order = [int(t) for t in f[6].split(",")] if f[6].strip() else []
+    m_cd = [math.inf if t == "inf" else float(Fr(t)) for t in f[7].split(",")] if f[7].strip() else []
+    m_fn = [int(t) for t in f[8].split(",")] if f[8].strip() else []
+    if sorted(real_order) != sorted(m_order):
+        return ("step-swarm", head + "update_global_best leaves the swarm as the particles %r, the model as %r" % (real_order, m_order))
+    if real_order != m_order:
+        # a different order of an in-place sort: only possible through tied keys decided differently
+        return ("step-order", head + "update_global_best leaves the swarm in the order %r (positions in the selected list), the model's crowding sort in %r" % (
+            real_order, m_order))
+    for j, s in enumerate(s_gb):
+        if not close(float(s["cd"]), m_cd[j]) or (alg == "OMOPSO" and s["fn"] != m_fn[j]):
+            return ("step-crowding", head + "particle %d ends with crowding distance %r / front number %r, the model gives %r / %r" % (
+                real_order[j], s["cd"], s["fn"], m_cd[j], m_fn[j]))
+        if s["x"] != s_eval[real_order[j]]["x"] and not all(pclose(a, b, bounds[i]) for i, (a, b) in enumerate(zip(s["x"], s_eval[real_order[j]]["x"]))):
+            return ("step-final-position", head + "particle %d was evaluated at %r but holds the position %r when the generation is recorded "
+                    "(the model records the evaluated position)" % (real_order[j], s_eval[real_order[j]]["x"], s["x"]))
+    # 7. leaders
+    la = rec.get("leaders_after")
+    if la is None:
+        return ("step-leaders", head + "update_global_best was not observed")
+    msg = check_leaders_P([s["obj"] for s in la], cfg["N"])
+    if msg:
+        return ("step-leaders-invariant", head + msg)
+    res = compare_leaders(parse_leaders(f[9]), la)
+    if res == "near-tie":
+        return "near-tie"
+    if res:
+        return ("step-leaders", head + "after update_global_best the " + res)
+    return None
+
+
+def check_run(rr, ans):
+    cfg, p = rr["cfg"], rr["p"]
+    head = "%s %s: " % (cfg["algo"], cfg)
+    if not ans.startswith("ok"):
+        return ("run-" + ans.split()[0], head + "the real run completed, the composed model (swarmRun) answers %r" % ans)
+    f = ans[2:].split("|")
+    evals, calls = int(f[0]), int(f[1])
+    real_ok = sum(1 for c in p.calls if c[2] == "o")
+    if evals != real_ok or calls != len(p.calls):
+        return ("run-evals", head + "%d successful / %d objective calls, the model run makes %d / %d (budget N*(G+1) = %d)" % (
+            real_ok, len(p.calls), evals, calls, cfg["N"] * (cfg["G"] + 1)))
+    recs = [t.split(":") for t in f[2].split(";")] if f[2] else []
+    if len(recs) != len(p.individuals):
+        return ("run-recorded", head + "%d designs were recorded, the model run records %d" % (len(p.individuals), len(recs)))
+    for k, (ind, m) in enumerate(zip(p.individuals, recs)):
+        if str(ind.population_id) != m[0]:
+            return ("run-tag", head + "recorded design #%d carries generation tag %r, the model run tags it %s" % (k, ind.population_id, m[0]))
+        mv = fr_list(m[1])
+        if len(mv) != len(ind.vector) or not all(pclose(a, b, cfg["bounds"][i]) for i, (a, b) in enumerate(zip(ind.vector, mv))):
+            return ("run-design", head + "recorded design #%d (generation %r) is %r, the model run records %r there" % (
+                k, ind.population_id, list(ind.vector), [float(t) for t in mv]))
+    gens = f[3].split("~")
+    real_gens = [rr["init"]] + rr["recs"]
+    if len(gens) != len(real_gens):
+        return ("run-generations", head + "%d generations were observed, the model run has %d" % (len(real_gens), len(gens)))
+    for g, (t, rec) in enumerate(zip(gens, real_gens)):
+        la = rec.get("leaders_after")
+        if la is None:
+            return ("run-leaders", head + "generation %d: update_global_best was not observed" % g)
+        res = compare_leaders(parse_leaders(t), la)
+        if res == "near-tie":
+            return "near-tie"
+        if res:
+            return ("run-leaders", head + "generation %d: the " % g + res)
+    # personal bests after init_pbest (generation 0) are checked through the first iteration's parents; here the archive
+    arch = getattr(rr["a"], "archive", None)
+    if cfg["algo"] == "OMOPSO" and arch is not None:
+        real = sorted(skey(i.costs_signed) for i in arch._contents)
+        model = sorted(skey(c + [m]) for c, m, _ in parse_leaders(f[4]))
+        if real != model:
+            return ("run-archive", head + "the eps-archive ends with %d members, the model's with %d (different signed-cost sets)" % (len(real), len(model)))
+    return None
+
+
+def check_init_pbest(rr):
+    """init_pbest: every initial particle's personal best is its own evaluated position (generation 0 of the model)."""
+    rec = rr["init"]
+    for s in rec["ev"].get("update_global_best:in") or []:
+        if s["bc"] is None or skey(s["bc"]) != skey(s["cs"]) or s["bv"] != s["x"]:
+            return ("init-pbest", "%s %s: after init_pbest the particle at %r with signed costs %r has personal best %r at %r; the model "
+                    "(initPbest) sets its own costs and position" % (rr["cfg"]["algo"], rr["cfg"], s["x"], s["cs"], s["bc"], s["bv"]))
+    return None
+
+
+def swarm_cfgs(ctx):
+    rng = ctx.rng
+    n = 26 if ctx.quick else 5000
+    out = []
+    for k in range(n):
+        dim = rng.randint(1, 3)
+        bk = rng.choice(["dyadic", "unit", "generic", "generic", "tiny", "large"])
+        bounds = []
+        for _ in range(dim):
+            if bk == "dyadic":
+                lb = float(rng.randint(-8, 8)) / 4
+                bounds.append((lb, lb + rng.choice([0.5, 1.0, 2.0, 4.0])))
+            elif bk == "unit":
+                bounds.append((0.0, 1.0))
+            elif bk == "tiny":
+                c = rng.uniform(-2, 2)
+                bounds.append((c, c + 1e-6 * rng.uniform(0.5, 2)))
+            elif bk == "large":
+                bounds.append((-1e6 * rng.uniform(0.5, 2), 1e6 * rng.uniform(0.5, 2)))
+            else:
+                lb, ub = gen_box(rng)
+                bounds.append((lb, ub if ub > lb else lb + 1.0))
+        out.append({"algo": RUN_ALGS[k % 2], "N": rng.choice([1, 2, 3, 4, 5, 7, 8] if ctx.quick else [1, 2, 3, 4, 5, 7, 8, 13]),
+                    "G": rng.choice([1, 2, 3, 4]), "bounds": bounds, "nobj": rng.choice([1, 2, 2, 2, 3]),
+                    "kind": rng.choice(["smooth", "smooth", "constrained"]), "fail_p": rng.choice([0, 0, 0.15, 0.3]),
+                    "pm": rng.choice([0.1, 0.5, 1.0]), "seed": rng.randrange(10 ** 6)})
+    return out
+
+
+def check_swarm_runs(ctx, rrs):
+    """Replay recorded runs through the Lean model.  Returns the first failure (key, what, cfg) or None."""
+    reqs = []
+    for rr in rrs:
+        s_prepare(rr)
+        for it in range(len(rr["recs"])):
+            reqs.append(("step", rr, it, step_request(rr, it)))
+        reqs.append(("run", rr, None, run_request(rr)))
+    answers = ctx.lean([q[3] for q in reqs])
+    for (kind, rr, it, _), ans in zip(reqs, answers):
+        cfg = rr["cfg"]
+        if kind == "step":
+            res = check_step(rr, it, ans)
+            if res == "near-tie":
+                ctx.count("swarm_steps_crowding_near_tie_at_the_leader_cut")
+                rr["skip_run"] = True
+                continue
+            if res is not None:
+                return res + (cfg,)
+            rec = rr["recs"][it]
+            ctx.case(("swarm-step", cfg["algo"], cfg["seed"], cfg["N"], it), nontrivial=True)
+            ctx.count("swarm_steps_" + cfg["algo"])
+            s_vel = rec["ev"].get("update_velocity:out") or []
+            s_pos = rec["ev"].get("update_position:out") or []
+            s_hand = rec["ev"].get("evaluate:in") or []
+            for sv in s_vel:
+                ctx.count("swarm_velocity_components", len(sv["v"]))
+                ctx.count("swarm_velocity_components_on_limit",
+                          sum(1 for v, (lb, ub) in zip(sv["v"], cfg["bounds"]) if abs(v) == (ub - lb) / 2.0))
+            for sp in s_pos:
+                ctx.count("swarm_position_coordinates_on_bound", sum(1 for x, (lb, ub) in zip(sp["x"], cfg["bounds"]) if x in (lb, ub)))
+            ctx.count("swarm_turbulence_coordinates_mutated",
+                      sum(1 for a_, b_ in zip(s_pos, s_hand) for x, y in zip(a_["x"], b_["x"]) if x != y))
+            ev, pb = rec["ev"].get("evaluate:out") or [], rec["ev"].get("update_particle_best:out") or []
+            kept = sum(1 for a_, b_ in zip(ev, pb) if a_["bc"] and b_["bc"] and skey(a_["bc"]) == skey(b_["bc"]) and skey(b_["bc"]) != skey(a_["cs"]))
+            ctx.count("swarm_pbest_kept", kept)
+            ctx.count("swarm_pbest_replaced", len(pb) - kept)
+            if len(rec["leaders"]) + len(ev) > cfg["N"]:
+                ctx.count("swarm_leader_truncations")
+        else:
+            res = check_init_pbest(rr)
+            if res is not None:
+                return res + (cfg,)
+            if rr.get("skip_run"):
+                continue
+            res = check_run(rr, ans)
+            if res == "near-tie":
+                ctx.count("swarm_runs_crowding_near_tie_at_the_leader_cut")
+                continue
+            if res is not None:
+                return res + (cfg,)
+            faults = sum(1 for c in rr["p"].calls if c[2] != "o")
+            ctx.case(("swarm-run", cfg["algo"], cfg["seed"], cfg["N"], cfg["G"]), nontrivial=(cfg["G"] >= 2 or faults > 0),
+                     sample={"replayed_swarm_run": {k: v for k, v in cfg.items()}, "objective_calls": len(rr["p"].calls),
+                             "failed_calls": faults, "recorded": len(rr["p"].individuals)})
+            ctx.count("swarm_runs_" + cfg["algo"])
+            ctx.count("swarm_failed_calls", faults)
+            ctx.count("swarm_near_bound_decisions_skipped", rr.get("near", 0))
+    return None
+
+
+def record_swarm_or_skip(ctx, cfg):
+    try:
+        return record_swarm(cfg)
+    except RuntimeError as e:
+        if cfg["fail_p"] and "failures" in str(e):
+            ctx.count("swarm_run_aborted_by_5_failures")
+            return None
+        raise
+
+
+def stream_swarm_runs(ctx):
+    rrs = []
+    for cfg in swarm_cfgs(ctx):
+        rr = record_swarm_or_skip(ctx, cfg)
+        if rr is not None:
+            rrs.append(rr)
+    err = check_swarm_runs(ctx, rrs)
+    if err is not None:
+        key, what, cfg = err
+        rr = next(r for r in rrs if r["cfg"] is cfg)
+        cl = run_clauses(rr)
+        if cl:
+            what += " -- clauses of the property violated by the observed run: " + "; ".join(cl[:4])
+        ctx.fail(key, what, {"op": "swarmrun", "cfg": cfg, "error": what})
+        return True
+    return False
+
+
 # --------------------------------------------------------------------------- entry points
 
 def run(ctx):
@@ -501,17 +1280,24 @@ def run(ctx):
                 "velocities and positions inside, on and far outside (1e6..1e12) the box, dyadic values for exact ties with a bound; "
                 "sequences of 1-6 generations of synthetic swarms offered to the leader archive with population sizes 1-7, plus real "
                 "run()s checked after every generation; non-trivial = comparable or equal cost pair / velocity outside the band / "
-                "coordinate leaving the box / truncation that actually cuts an existing leader set; distinct = distinct encoded inputs")
+                "coordinate leaving the box / truncation that actually cuts an existing leader set; distinct = distinct encoded inputs; "
+                "step-by-step: real OMOPSO/SMPSO runs (N 1-8 (13 thorough), G 1-4, 1-3 parameters, 1-3 objectives, dyadic / unit / generic / "
+                "1e-6-wide / 1e6-wide boxes, mutation probability 0.1-1, constraint, injected transient failures 0-30%) replayed "
+                "iteration by iteration and as whole runs through the composed run model; every replayed iteration and run is a case")
     ctx.assumptions += ["finite floats; velocity/position arithmetic compared with exact rationals within 1e-9 relative, exactly on a bound "
                         "and for untouched values; generated x+v is either exact (dyadic) or further than 1e-9 relative from a bound",
                         "leader archive: costs on a 0.25 grid, 30% of the sequences with nearly tied values (relative gaps 1e-13..1e-9), or as produced by real runs (rounded to 7 decimals), markers are the booleans the code produces",
-                        "lb <= ub for every parameter"]
+                        "lb <= ub for every parameter",
+                        "step-by-step replay: the model computes positions exactly, the run in doubles; costs of a model position are those the run "
+                        "stored for the closest evaluated position within 1e-9 relative; velocity after update_position is not compared on "
+                        "coordinates where x+v is within 1e-9 relative of a bound (counted); a leader set that differs only through crowding "
+                        "distances tied within rounding at the truncation cut is counted, not reported"]
     import random as _random
     state = _random.getstate()
     _random.seed(ctx.rng.getrandbits(64))      # the code under test draws from the global generator
     try:
         algs = {n: make_alg(n, [(-1.0, 2.0), (0.0, 5.0)]) for n in ALGS}
-        for part in (run_pbest, run_clamp, run_position, run_leaders):
+        for part in (run_pbest, run_clamp, run_position, run_leaders, lambda c, _a: stream_swarm_runs(c)):
             if part(ctx, algs):
                 return
     finally:
@@ -613,6 +1399,20 @@ def replay(ctx, rp):
                 break
         print("leader invariant after real runs:", ok)
         return ok
+    if op == "swarmrun":
+        cfg = dict(c["cfg"])
+        cfg["bounds"] = [tuple(b) for b in cfg["bounds"]]
+        rr = record_swarm(cfg)
+        s_prepare(rr)
+        cl = run_clauses(rr) + [r[1] for r in [check_init_pbest(rr)] if r]
+        print("%s run N=%d G=%d on box %r: %d designs recorded, %d objective calls" % (
+            cfg["algo"], cfg["N"], cfg["G"], cfg["bounds"], len(rr["p"].individuals), len(rr["p"].calls)))
+        for line in cl:
+            print("property clause violated:", line)
+        if not cl:
+            print("no clause of the property is violated by the observed run itself; the recorded disagreement with the composed model was:")
+            print(c.get("error"))
+        return not cl
     print("nothing to replay:", rp.get("what"))
     return False
 
